@@ -21,7 +21,7 @@ From Coq Require Import ZArith List String Bool Permutation.
 From Model Require Import PyBase Graph Determinism.
 From Model Require Morgan Fingerprint Rings Iso.
 From Gen Require Import SetAudit.
-From Proofs Require Import DeterminismProofs.
+From Proofs Require Import DeterminismProofs DeterminismExt.
 From Proofs Require MorganProofs FingerprintProofs RingsProofs IsoLazyProofs.
 Import ListNotations.
 Open Scope list_scope.
@@ -176,6 +176,100 @@ Theorem C19_index_assign_spec : forall (e : list Z) (len k : nat), (k < len)%nat
   nth k (index_assign e len) false = existsb (Z.eqb (Z.of_nat k)) e.
 Proof. exact index_assign_spec. Qed.
 Print Assumptions C19_index_assign_spec.
+
+(* ---- (b') a dict of lists filled in set order: LinearFingerprint._fragments and its consumer linear_hash_set ---- *)
+
+(* out[key(x)].append(val(x)) for x in S: every list of the finished dict has the same members for every enumeration *)
+Theorem C19_multi_table_perm : forall (K V : Type) (keqb : K -> K -> bool), (forall a b, keqb a b = true <-> a = b) ->
+  forall (X : Type) (key : X -> K) (val : X -> V) (e e' : list X), Permutation e e' ->
+  forall k, Permutation (mget keqb (multi_table keqb key val e) k) (mget keqb (multi_table keqb key val e') k).
+Proof. exact @multi_table_perm. Qed.
+Print Assumptions C19_multi_table_perm.
+
+(* ... its keys are exactly the keys of the members and each list holds exactly the values of the members of that key *)
+Theorem C19_multi_table_keys : forall (K V : Type) (keqb : K -> K -> bool), (forall a b, keqb a b = true <-> a = b) ->
+  forall (X : Type) (key : X -> K) (val : X -> V) (e : list X) k,
+  In k (map fst (multi_table keqb key val e)) <-> exists x, In x e /\ key x = k.
+Proof. exact @multi_table_keys. Qed.
+Print Assumptions C19_multi_table_keys.
+
+Theorem C19_multi_table_members : forall (K V : Type) (keqb : K -> K -> bool), (forall a b, keqb a b = true <-> a = b) ->
+  forall (X : Type) (key : X -> K) (val : X -> V) (e : list X) k v,
+  In v (mget keqb (multi_table keqb key val e) k) <-> exists x, In x e /\ key x = k /\ val x = v.
+Proof. exact @multi_table_members. Qed.
+Print Assumptions C19_multi_table_members.
+
+(* {hash(key, cnt) for key, list in items() for cnt in range(min(len(list), nbp))}: the same set for every enumeration *)
+Theorem C19_frag_hash_set_perm : forall (K V : Type) (keqb : K -> K -> bool), (forall a b, keqb a b = true <-> a = b) ->
+  forall (X : Type) (key : X -> K) (val : X -> V) (h : K -> Z -> Z) (nbp : Z) (e e' : list X), Permutation e e' ->
+  frag_hash_set keqb key val h nbp e = frag_hash_set keqb key val h nbp e'.
+Proof. exact @frag_hash_set_perm. Qed.
+Print Assumptions C19_frag_hash_set_perm.
+
+(* the instance that mirrors _fragments (keys = the larger of the identifier tuple and its reverse) *)
+Theorem C19_fragments_of_perm : forall (idf : Z -> Z) (ord : Z -> Z -> Z) (e e' : list (list Z)), Permutation e e' ->
+  (forall k, In k (map fst (fragments_of idf ord e)) <-> In k (map fst (fragments_of idf ord e'))) /\
+  (forall k, Permutation (mget zlist_eqb (fragments_of idf ord e) k) (mget zlist_eqb (fragments_of idf ord e') k)).
+Proof. exact fragments_of_perm. Qed.
+Print Assumptions C19_fragments_of_perm.
+
+Theorem C19_fragments_hash_set_perm : forall (idf : Z -> Z) (ord : Z -> Z -> Z) (h : list Z -> Z -> Z) (nbp : Z) (e e' : list (list Z)),
+  Permutation e e' ->
+  frag_hash_set zlist_eqb (frag_key idf ord) (frag_val idf ord) h nbp e =
+  frag_hash_set zlist_eqb (frag_key idf ord) (frag_val idf ord) h nbp e'.
+Proof. exact fragments_hash_set_perm. Qed.
+Print Assumptions C19_fragments_hash_set_perm.
+
+(* what the equivalence forgets IS visible to linear_hash_smiles (chains[0]): the first chain of a key depends on the
+   enumeration - an int-tuple set, so not on the hash seed (differential runs), but not order free either *)
+Theorem C19_fragments_first_chain_refuted :
+  let idf := fun _ : Z => 6 in let ord := fun _ _ : Z => 1 in
+  let e := [[2; 1]; [3; 2]] in let e' := [[3; 2]; [2; 1]] in
+  Permutation e e' /\
+  hd [] (mget zlist_eqb (fragments_of idf ord e) [6; 1; 6]) = [1; 2] /\
+  hd [] (mget zlist_eqb (fragments_of idf ord e') [6; 1; 6]) = [2; 3].
+Proof. exact fragments_first_chain_order_dependent. Qed.
+Print Assumptions C19_fragments_first_chain_refuted.
+
+Theorem C19_fragments_example :
+  let idf := fun x : Z => if x =? 3 then 8 else 6 in let ord := fun _ _ : Z => 1 in
+  fragments_of idf ord [[1]; [2]; [3]; [2; 1]; [3; 2]; [3; 2; 1]] =
+    [([6], [[1]; [2]]); ([8], [[3]]); ([6; 1; 6], [[1; 2]]); ([8; 1; 6], [[3; 2]]); ([8; 1; 6; 1; 6], [[3; 2; 1]])] /\
+  frag_hash_set zlist_eqb (frag_key idf ord) (frag_val idf ord) (fun k c => fold_left Z.add k c) 4 [[1]; [2]; [3]; [2; 1]] =
+  frag_hash_set zlist_eqb (frag_key idf ord) (frag_val idf ord) (fun k c => fold_left Z.add k c) 4 [[2; 1]; [3]; [2]; [1]].
+Proof. exact fragments_example. Qed.
+Print Assumptions C19_fragments_example.
+
+(* ---- (b'') generic reasons used for the files anchored by the other properties ---- *)
+
+(* `for n in S: state[n] = g(n, state[n])` (calc_implicit(n), a._charge += 1, new_molecules[x] = ...) *)
+Theorem C19_pointwise_update_perm : forall (V : Type) (g : Z -> V -> V) (e e' : list Z) (s : Z -> V), Permutation e e' ->
+  forall k, loop (upd_at g) e s k = loop (upd_at g) e' s k.
+Proof. exact @pointwise_update_perm. Qed.
+Print Assumptions C19_pointwise_update_perm.
+
+Theorem C19_existsb_perm : forall (X : Type) (p : X -> bool) (e e' : list X), Permutation e e' -> existsb p e = existsb p e'.
+Proof. exact @existsb_perm. Qed.
+Print Assumptions C19_existsb_perm.
+
+Theorem C19_forallb_perm : forall (X : Type) (p : X -> bool) (e e' : list X), Permutation e e' -> forallb p e = forallb p e'.
+Proof. exact @forallb_perm. Qed.
+Print Assumptions C19_forallb_perm.
+
+Theorem C19_sorted_ints_perm : forall e e' : list Z, Permutation e e' -> sort_by (fun z => z) e = sort_by (fun z => z) e'.
+Proof. exact sorted_ints_perm. Qed.
+Print Assumptions C19_sorted_ints_perm.
+
+Theorem C19_max_perm : forall (e e' : list Z) (d : Z), Permutation e e' -> loop Z.max e d = loop Z.max e' d.
+Proof. exact max_perm. Qed.
+Print Assumptions C19_max_perm.
+
+Theorem C19_ext_examples :
+  loop (upd_at (fun n v => v + n)) [3; 1; 3] (fun _ => 0) 3 = 6 /\
+  existsb (fun x => x >? 2) [1; 3] = existsb (fun x => x >? 2) [3; 1] /\
+  sort_by (fun z => z) [8; 1; 4] = [1; 4; 8].
+Proof. exact ext_examples. Qed.
+Print Assumptions C19_ext_examples.
 
 (* ---- (b) order_free_*: restated from the proof files of the owning properties ---- *)
 
